@@ -55,6 +55,10 @@ class BincountChunked(ArrayExpr):
     def _name(self):
         return f"bincount-{self.deterministic_token}"
 
+    def _requires_grid_preservation(self, dependency):
+        # ``_layer`` pairs the blocks of several inputs by position
+        return True
+
     def _layer(self):
         dsk = {}
         minlen = self.minlength
